@@ -17,7 +17,7 @@ class FitKernels:
         d = f.debug
         for nm in ('fragments', 'line_widths', 'default_line_width', 'lines', 'start', 'width', 'iter'):
             if nm not in d:
-                raise Unsupported('kernel: local `%s` not found in wrap_first_fit (code restructured?)' % nm)
+                raise OutOfBounds('kernel mode not applicable to this code shape: local `%s` not found in wrap_first_fit' % nm)
         fp = cfg.get('num') == 'fp'
         B = 1 << 40
 
@@ -131,7 +131,7 @@ class FitKernels:
         d = f.debug
         for nm in ('fragments', 'minima', 'lines', 'pos'):
             if nm not in d:
-                raise Unsupported('kernel: local `%s` not found in wrap_optimal_fit (code restructured?)' % nm)
+                raise OutOfBounds('kernel mode not applicable to this code shape: local `%s` not found in wrap_optimal_fit' % nm)
         B = 1 << 40
         n = I.sym_int('n', 0, B)
         pos = I.sym_int('pos', 0, B)
